@@ -8,6 +8,7 @@ from ..r_mdl import rule_first_m_end as _rule_first_m_end
 from ..r_alias import rule_retry_flush as _rule_retry_flush
 from ..r_round8 import rule_mol_property_positions as _r8_pos
 from ..r_round9 import rule_slice_shortcut as _r9_slice, rule_index_lands_on_header as _r9_idx
+from ..r_round10 import rule_one_based_bound as _r10_one
 
 LEVEL = 'other'
 EXEMPT = {
@@ -44,3 +45,4 @@ def run(ck, repo):
     _r8_pos(ck, repo, 'C11.D6-property-line-positions')
     _r9_slice(ck, repo, 'C11.D7-slice-shortcut')
     _r9_idx(ck, repo, 'C11.D7-index-lands-on-header')
+    _r10_one(ck, repo, 'C11.D8-one-based-bound')
